@@ -66,3 +66,222 @@ theorem mul_neg_one (p N : Nat) (hp : 1 ≤ p) (h : N < 10 ^ p) : mul p ⟨false
   exact fix_small p _ _ _ hp h
 
 end RTV.Dec
+
+namespace RTV.Dec
+
+/-! ### exact values: `Rep d M j` — the non-negative decimal `d` (exponent ≤ 0) denotes `M / 10^j` -/
+
+theorem ndigitsAux_pos (fuel n : Nat) : 1 ≤ ndigitsAux fuel n := by
+  cases fuel with
+  | zero => simp [ndigitsAux]
+  | succ f => unfold ndigitsAux; split <;> omega
+
+theorem ndigitsAux_spec (fuel n : Nat) (hf : n ≤ fuel) (h0 : n ≠ 0) :
+    10 ^ (ndigitsAux fuel n - 1) ≤ n ∧ n < 10 ^ ndigitsAux fuel n := by
+  induction fuel generalizing n with
+  | zero => omega
+  | succ f ih =>
+    unfold ndigitsAux
+    split
+    · simp; omega
+    · rename_i h10
+      have hk := ndigitsAux_pos f (n / 10)
+      obtain ⟨l, u⟩ := ih (n / 10) (by omega) (by omega)
+      generalize ndigitsAux f (n / 10) = k at *
+      have e1 : k + 1 - 1 = (k - 1) + 1 := by omega
+      rw [e1, Nat.pow_succ, Nat.pow_succ]
+      omega
+
+theorem ndigits_spec (n : Nat) (h0 : n ≠ 0) : 10 ^ (ndigits n - 1) ≤ n ∧ n < 10 ^ ndigits n :=
+  ndigitsAux_spec n n (Nat.le_refl _) h0
+
+def Rep (d : Dec) (M j : Nat) : Prop :=
+  d.neg = false ∧ d.exp ≤ 0 ∧ d.coeff * 10 ^ j = M * 10 ^ (-d.exp).toNat
+
+theorem pow10_pos (k : Nat) : 0 < 10 ^ k := Nat.pow_pos (by decide)
+
+theorem pow10_lt {a b : Nat} (h : a < b) : 10 ^ a < 10 ^ b := Nat.pow_lt_pow_right (by decide) h
+
+theorem pow10_le {a b : Nat} (h : a ≤ b) : 10 ^ a ≤ 10 ^ b := Nat.pow_le_pow_right (by decide) h
+
+/-- `_fix` is exact on a value that has at most `p` significant digits. -/
+theorem fix_rep (p S : Nat) (e0 : Int) (M j : Nat) (hp : 1 ≤ p) (hM : M < 10 ^ p) (h : Rep ⟨false, S, e0⟩ M j) :
+    Rep (fix p ⟨false, S, e0⟩) M j := by
+  obtain ⟨_, he0, hv⟩ := h
+  simp only at he0 hv
+  unfold fix
+  simp only
+  split
+  · exact ⟨rfl, he0, hv⟩
+  · rename_i hS0
+    have hS : S ≠ 0 := by simpa using hS0
+    split
+    · exact ⟨rfl, he0, hv⟩
+    · rename_i hn
+      obtain ⟨lb, ub⟩ := ndigits_spec S hS
+      generalize hnd : ndigits S = n at *
+      have hnp : p < n := by omega
+      generalize hE : (-e0).toNat = E at hv
+      -- S ≥ 10^(n-1) ≥ 10^p > M
+      have hSM : M < S := by
+        have : 10 ^ p ≤ 10 ^ (n - 1) := pow10_le (by omega)
+        omega
+      -- E > j
+      have hEj : j < E := by
+        rcases Nat.lt_or_ge j E with h | h
+        · exact h
+        · exfalso
+          have : 10 ^ E ≤ 10 ^ j := pow10_le h
+          have h1 : M * 10 ^ E ≤ M * 10 ^ j := Nat.mul_le_mul_left _ this
+          have h2 : M * 10 ^ j < S * 10 ^ j := Nat.mul_lt_mul_of_pos_right hSM (pow10_pos j)
+          omega
+      obtain ⟨t, ht⟩ := Nat.exists_eq_add_of_lt hEj
+      -- S = M * 10^(t+1)
+      have hSeq : S = M * 10 ^ (t + 1) := by
+        have : M * 10 ^ E = (M * 10 ^ (t + 1)) * 10 ^ j := by
+          rw [ht, Nat.mul_assoc, ← Nat.pow_add]; congr 2; omega
+        rw [this] at hv
+        exact Nat.eq_of_mul_eq_mul_right (pow10_pos j) hv
+      -- t + 1 ≥ n - p
+      have hts : n - p ≤ t + 1 := by
+        rcases Nat.lt_or_ge (t + 1) (n - p) with h | h
+        · exfalso
+          have h1 : 10 ^ (t + 1) ≤ 10 ^ (n - p - 1) := pow10_le (by omega)
+          have h2 : M * 10 ^ (t + 1) < 10 ^ p * 10 ^ (n - p - 1) :=
+            Nat.lt_of_le_of_lt (Nat.mul_le_mul_left _ h1) (Nat.mul_lt_mul_of_pos_right hM (pow10_pos _))
+          rw [← Nat.pow_add] at h2
+          have : p + (n - p - 1) = n - 1 := by omega
+          rw [this] at h2
+          omega
+        · exact h
+      obtain ⟨u, hu⟩ := Nat.exists_eq_add_of_le hts
+      have hSq : S = (M * 10 ^ u) * 10 ^ (n - p) := by
+        rw [hSeq, hu, Nat.mul_assoc, ← Nat.pow_add]; congr 2; omega
+      have hq : S / 10 ^ (n - p) = M * 10 ^ u := by
+        rw [hSq]; exact Nat.mul_div_cancel _ (pow10_pos _)
+      have hr : S % 10 ^ (n - p) = 0 := by
+        rw [hSq]; exact Nat.mul_mod_left _ _
+      have hrhe : roundHalfEven S (n - p) = M * 10 ^ u := by
+        unfold roundHalfEven
+        simp only [hq, hr]
+        have hhalf : 0 < 5 * 10 ^ (n - p - 1) := Nat.mul_pos (by decide) (pow10_pos _)
+        have c1 : ¬ (0 > 5 * 10 ^ (n - p - 1)) := by omega
+        have c2 : (0 == 5 * 10 ^ (n - p - 1)) = false := by simp; omega
+        simp [c1, c2]
+      have hqlt : M * 10 ^ u < 10 ^ p := by
+        have : S < 10 ^ p * 10 ^ (n - p) := by
+          rw [← Nat.pow_add]
+          have : p + (n - p) = n := by omega
+          rw [this]; exact ub
+        rw [hSq] at this
+        exact Nat.lt_of_mul_lt_mul_right this
+      have hnq : ndigits (M * 10 ^ u) ≤ p := ndigits_le hp hqlt
+      rw [hrhe]
+      have : ¬ (ndigits (M * 10 ^ u) > p) := by omega
+      simp only [this, if_false]
+      have hEe : E = (-e0).toNat := hE.symm
+      refine ⟨rfl, ?_, ?_⟩
+      · simp only; omega
+      · simp only
+        have : (-(e0 + ((n - p : Nat) : Int))).toNat = u + j := by omega
+        rw [this, Nat.mul_assoc, ← Nat.pow_add]
+
+theorem rep_shift (d : Dec) (M j : Nat) (h : Rep d M j) : Rep d (M * 10) (j + 1) := by
+  obtain ⟨a, b, c⟩ := h
+  refine ⟨a, b, ?_⟩
+  rw [Nat.pow_succ, ← Nat.mul_assoc, c, Nat.mul_assoc, Nat.mul_assoc, Nat.mul_comm 10]
+
+/-- `context.add` is exact when the sum has at most `p` significant digits. -/
+theorem add_rep (p : Nat) (a b : Dec) (Ma Mb j : Nat) (hp : 1 ≤ p) (ha : Rep a Ma j) (hb : Rep b Mb j)
+    (hM : Ma + Mb < 10 ^ p) : Rep (add p a b) (Ma + Mb) j := by
+  obtain ⟨an, ae, av⟩ := ha
+  obtain ⟨bn, be, bv⟩ := hb
+  obtain ⟨aneg, ac, aexp⟩ := a
+  obtain ⟨bneg, bc, bexp⟩ := b
+  simp only at an ae av bn be bv
+  subst an bn
+  unfold add
+  simp only [BEq.rfl, if_true, Bool.false_and]
+  apply fix_rep p _ _ _ _ hp hM
+  refine ⟨rfl, by simp only; omega, ?_⟩
+  simp only
+  rw [Nat.add_mul, Nat.add_mul]
+  have e1 : ac * 10 ^ (aexp - min aexp bexp).toNat * 10 ^ j = Ma * 10 ^ (-min aexp bexp).toNat := by
+    rw [Nat.mul_right_comm, av, Nat.mul_assoc, ← Nat.pow_add]; congr 2; omega
+  have e2 : bc * 10 ^ (bexp - min aexp bexp).toNat * 10 ^ j = Mb * 10 ^ (-min aexp bexp).toNat := by
+    rw [Nat.mul_right_comm, bv, Nat.mul_assoc, ← Nat.pow_add]; congr 2; omega
+  rw [e1, e2]
+
+theorem rep_zero (j : Nat) : Rep zero 0 j := by simp [Rep, zero, ofNat]
+
+theorem rep_int (N : Nat) : Rep ⟨false, N, 0⟩ N 0 := by simp [Rep]
+
+theorem mul_one_rep (p : Nat) (a : Dec) (M j : Nat) (hp : 1 ≤ p) (ha : Rep a M j) (hM : M < 10 ^ p) :
+    Rep (mul p a (ofNat 1)) M j := by
+  obtain ⟨aneg, ac, aexp⟩ := a
+  obtain ⟨an, ae, av⟩ := ha
+  simp only at an ae av
+  subst an
+  simp only [mul, ofNat, Nat.mul_one, Int.add_zero, bne_self_eq_false]
+  exact fix_rep p _ _ _ _ hp hM ⟨rfl, ae, av⟩
+
+theorem fix_neg (p c : Nat) (e : Int) : fix p ⟨true, c, e⟩ = { fix p ⟨false, c, e⟩ with neg := true } := by
+  unfold fix
+  simp only
+  split
+  · rfl
+  · split
+    · rfl
+    · split <;> rfl
+
+end RTV.Dec
+
+namespace RTV.Dec
+
+/-! ### the `Decimal(0.1)` scale of `_get_digital_value` -/
+
+/-- the scale in force for the `j`-th fraction digit (`j ≥ 1`): `Decimal(0.1)` itself, then `1.00000000000000E-j` -/
+def scaleAt (j : Nat) : Dec := if j = 1 then pointOne else ⟨false, 100000000000000, -(14 + (j : Int))⟩
+
+instance (d : Dec) (M j : Nat) : Decidable (Rep d M j) := by unfold Rep; exact inferInstance
+
+theorem addend_first : ∀ d, d < 10 → Rep (mul 15 pointOne (ofNat d)) d 1 := by decide +kernel
+
+theorem scale_second : mul 15 pointOne pointOne = ⟨false, 100000000000000, -16⟩ := by decide +kernel
+
+theorem scale_next (x : Int) : mul 15 ⟨false, 100000000000000, x⟩ pointOne = ⟨false, 100000000000000, x - 1⟩ := by
+  have hn : ndigits (100000000000000 * 1000000000000000055511151231257827021181583404541015625) = 69 := by
+    decide +kernel
+  have hr : roundHalfEven (100000000000000 * 1000000000000000055511151231257827021181583404541015625) 54 =
+      100000000000000 := by decide +kernel
+  have hq : ndigits 100000000000000 = 15 := by decide +kernel
+  simp only [mul, pointOne, fix, hn, hr, hq]
+  simp
+  omega
+
+/-- the addend of the `j`-th fraction digit `d` denotes `d / 10^j` -/
+theorem addend_rep (j d : Nat) (hj : 1 ≤ j) (hd : d < 10) : Rep (mul 15 (scaleAt j) (ofNat d)) d j := by
+  unfold scaleAt
+  split
+  · rename_i h; subst h; exact addend_first d hd
+  · simp only [mul, ofNat, Int.add_zero, bne_self_eq_false]
+    rw [fix_small 15 _ _ _ (by decide) (by omega)]
+    refine ⟨rfl, by simp only; omega, ?_⟩
+    simp only
+    have : (-(-(14 + (j : Int)))).toNat = 14 + j := by omega
+    rw [this, Nat.pow_add]
+    have : (100000000000000 : Nat) = 10 ^ 14 := by decide
+    rw [this, Nat.mul_comm (10 ^ 14) d, Nat.mul_assoc]
+
+theorem scale_step (j : Nat) (hj : 1 ≤ j) : mul 15 (scaleAt j) pointOne = scaleAt (j + 1) := by
+  unfold scaleAt
+  split
+  · rename_i h; subst h; simpa using scale_second
+  · rename_i h
+    have : ¬ (j + 1 = 1) := by omega
+    simp only [this, if_false]
+    rw [scale_next]
+    congr 1
+    omega
+
+end RTV.Dec
